@@ -5,7 +5,7 @@ import srvlib
 
 CLI = vlib.tu_harness(['hmain.c', 'h_clihist.c', 'wire_net.c', 'wire_srv.c', 'wire_cli.c'], 'server',
                       ['sendto', 'recvfrom', 'recv', 'recvmsg', 'time', 'write_tun', 'read_tun', 'system', 'rand', 'sleep',
-                       'compress2', 'uncompress'])
+                       'compress2', 'uncompress', 'select'])
 CLI['repo'] = vlib.COMMON_SRCS + ['user.c', 'fw_query.c', 'util.c']
 
 QTYPES = [10, 65399, 16, 33, 15, 5, 1]
@@ -188,6 +188,73 @@ def gen_histories(seed, n, nevents, tag='cli'):
     stats = {}
     for _ in range(n):
         g = CliGen(rng)
+        out.append(g.build(nevents))
+        for k, v in g.stats.items():
+            stats[k] = stats.get(k, 0) + v
+    return out, stats
+
+
+class LoopGen(CliGen):
+    """histories for the real select loop (T lines): the events of CliGen plus 'both readable' iterations, with
+    stretches in which a packet is in flight, nothing is acknowledged and the tun device keeps delivering packets
+    while the clock advances (the situation of D18)"""
+
+    def head(self):
+        return 'T' + CliGen.head(self)[1:]
+
+    def both(self):
+        r = self.rng
+        n = r.choice([1, 20, 300])
+        pk = bytes(r.randrange(256) for _ in range(n))
+        k = r.randrange(3)
+        if k == 0:
+            dg = bytes(r.randrange(256) for _ in range(r.randrange(0, 40)))
+        elif k == 1:
+            dg = srvlib.dns_query(r.randrange(65536), self.qtype, b'pabc.' + self.domain)
+        else:
+            q = bytearray(srvlib.dns_query(r.randrange(65536), self.qtype, bytes([self.first_char()]) + b'abc.' + self.domain, edns0=False))
+            q[2] = 0x81
+            q[3] = 0x80 | r.choice([0, 2, 3])
+            dg = bytes(q)
+        self.events.append('B %d %s %s' % (self.now, pk.hex(), dg.hex() if dg else '-'))
+        self.stats['both'] = self.stats.get('both', 0) + 1
+
+    def busy_stretch(self):
+        r = self.rng
+        self.tun()                                  # start a packet
+        for _ in range(r.randrange(3, 14)):
+            x = r.random()
+            if x < 0.55:
+                self.tun()
+            elif x < 0.75:
+                self.timeout()
+            elif x < 0.85:
+                self.both()
+            else:
+                self.answer(ackmode=r.choice([0, 2]))   # an answer that does not acknowledge the chunk
+            self.now += r.choice([0, 0, 1, 1, 2])
+        self.stats['busy_stretch'] = self.stats.get('busy_stretch', 0) + 1
+
+    def build(self, nevents):
+        r = self.rng
+        while len(self.events) < nevents:
+            x = r.random()
+            if x < 0.25 and self.dns:
+                self.busy_stretch()
+            elif x < 0.32:
+                self.both()
+            else:
+                before = len(self.events)
+                CliGen.build(self, min(nevents, before + r.randrange(1, 6)))
+        return self.head() + ' ; ' + ' ; '.join(self.events[:nevents])
+
+
+def gen_loop_histories(seed, n, nevents, tag='cliloop'):
+    rng = vlib.rng_for(seed, tag)
+    out = []
+    stats = {}
+    for _ in range(n):
+        g = LoopGen(rng)
         out.append(g.build(nevents))
         for k, v in g.stats.items():
             stats[k] = stats.get(k, 0) + v
